@@ -208,6 +208,8 @@ def packet_class(p):
         return 'noseq'
     if any(e['id'] in (NOID, ROOTID) for e in es):
         return 'noid'
+    if len({e['id'] for e in es}) < len(es):
+        return 'dup'                    # a node named more than once
     return 'plain'
 
 
@@ -342,7 +344,12 @@ class Cover:
     stimulus enabled there the stimulus is applied to the instance in (a set of graph states
     containing) that state; the observation selects the successor edge(s). The next stimulus is
     one not yet attempted at the current state, else the first step of a shortest path - through
-    edges the implementation is known to take, or not yet tried - to a state that has one."""
+    edges the implementation is known to take, or not yet tried - to a state that has one.
+
+    The same vector again: the graph has no memory of packets, an implementation may have. Whenever a
+    decodable vector was ignored because it over-claims, the walk continues with publications until the
+    vector does not over-claim any more and then delivers the byte-identical vector again (once per
+    vector and public state before; the expected outcome is the graph's, as for every step)."""
 
     def __init__(self, ctx, g, nodes, sup, sync, sample=False):
         self.ctx, self.g, self.nodes, self.sup, self.sync = ctx, g, nodes, sup, sync
@@ -355,6 +362,9 @@ class Cover:
         self.new_pairs = 0            # (state, stimulus) pairs first attempted by the last path
         self.dev_hits = {}
         self.prev = None              # (cfg, events) of the previous path: the instance that lived before this one
+        self.again_done = set()       # (packet, public state before) whose repetition after catching up was walked
+        self.again_steps = 0
+        self.pending = None           # packet to deliver again as soon as it does not over-claim any more
         self.init_bad = 0
         self.stims = {}               # state -> {stim key: (event, [edge index])}
         self._usable = {}
@@ -403,8 +413,36 @@ class Cover:
                 dq.append(dst)
         return None
 
+    def overclaim(self, ev, curs):
+        """largest own sequence number a decodable packet claims beyond what every current state has produced"""
+        if ev['a'] != 'RecvSV' or ev['p']['k'] != 'sv':
+            return 0
+        own = [e['seq'] for e in ev['p']['es'] if e['id'] == self.nodes[0] and e['id'] not in (NOID, ROOTID)]
+        top = max(own, default=0)
+        return top if all(self.g.state[s]['selfSeq'] < top for s in curs) else 0
+
+    def forced(self, curs):
+        """the next stimulus of a repetition in progress (None: none in progress / not possible from here)"""
+        if self.pending is None:
+            return None
+        p = self.pending
+        s0 = min(curs)
+        want = None
+        if self.overclaim({'a': 'RecvSV', 'p': p}, curs):
+            want = lambda e: e['a'] == 'Publish' and e['n'] == 1 and e['j'] == 0
+        elif all(self.g.state[s]['selfSeq'] >= max(e['seq'] for e in p['es'] if e['id'] == self.nodes[0]) for s in curs):
+            want = lambda e: e['a'] == 'RecvSV' and e['p'] == p and e['j'] == 0 and e['r'] == 0
+            self.pending = None
+        for key, (e, _) in sorted(self.stims[s0].items()):
+            if want is not None and want(e):
+                self.again_steps += 1
+                return key
+        self.pending = None
+        return None
+
     def run_path(self, init, max_len):
         g, ctx = self.g, self.ctx
+        self.pending = None
         st0 = g.state[init]
         sc = Scenario(self.nodes, init_seq=st0['selfSeq'], sup_ticks=self.sup, sync_ticks=self.sync,
                       j0=st0['timer'] - int(round(self.sync * 0.9)))
@@ -432,7 +470,7 @@ class Cover:
             earlier = 0
             self.new_pairs = 0
             while len(evs) < max_len:
-                key = self.next_stimulus(curs)
+                key = self.forced(curs) or self.next_stimulus(curs)
                 if key is None:
                     break
                 cands = [(s, k) for s in sorted(curs) if key in self.stims[s] for k in self.stims[s][key][1]]
@@ -478,6 +516,12 @@ class Cover:
                                                   'rec': {'cfg': {'init': st0['selfSeq'], 't0': st0['timer']},
                                                           'ev': list(evs)}})
                     earlier += 1
+                if self.pending is None and self.overclaim(ev, curs):
+                    pre = g.state[min(curs)]
+                    mark = (stim_key(ev['p']), json.dumps([pre['local'], pre['state'], pre['heard']], sort_keys=True, default=str))
+                    if mark not in self.again_done and len(evs) + 4 <= max_len:
+                        self.again_done.add(mark)
+                        self.pending = ev['p']
                 curs = {g.edges[s][k][2] for (s, k) in exact}
             bg = sc.errors()
         finally:
@@ -525,10 +569,11 @@ def stage_b(ctx):
         left = sum(len(t) for t in cov.todo.values())
         ctx.note('B[MaxSeq=%d]: %d states, %d edges, %d (state, stimulus) pairs; %d paths / %d steps on SvsInst; '
                  '%d pairs attempted, %d not reached; %d edges taken, %d alternative edges not taken by the '
-                 'implementation; deviation edges taken: %s; %d unexplained' % (
+                 'implementation; deviation edges taken: %s; %d unexplained; %d over-claiming vectors delivered again '
+                 'after the node had caught up (%d extra steps)' % (
                      ms, len(g.state), g.n_edges, cov.n_stimuli, cov.paths, cov.steps, len(cov.attempted), left,
                      len(cov.covered), sum(len(cov.stims[s][key][1]) for (s, key) in cov.attempted) - len(cov.covered),
-                     cov.dev_hits or 'none', len(cov.suspects)))
+                     cov.dev_hits or 'none', len(cov.suspects), len(cov.again_done), cov.again_steps))
         ctx.extra.setdefault('B', []).append({'MaxSeq': ms, 'states': len(g.state), 'edges': g.n_edges,
                                               'stimuli': cov.n_stimuli, 'paths': cov.paths, 'steps': cov.steps,
                                               'attempted': len(cov.attempted), 'not_reached': left,
